@@ -90,12 +90,7 @@ func hashUserType(ut UserType, ignoreFields, ignoreNames, ignoreTags bool, seen 
 	}
 	att := ut.Attribute()
 	if !ignoreTags {
-		for k, v := range att.Meta {
-			if !strings.HasPrefix(k, "struct:field:") {
-				continue
-			}
-			h += fmt.Sprintf("%s%s%s", tagPrefix, k, v)
-		}
+		h += hashTags(att.Meta)
 	}
 	h += userTypeHashPrefix + *hash(att.Type, ignoreFields, ignoreNames, ignoreTags, seen)
 	return &h
@@ -112,15 +107,27 @@ func hashObject(o *Object, ignoreFields, ignoreNames, ignoreTags bool, seen map[
 		*ph += attributePrefix + a.Name +
 			attributeTypePrefix + *hash(a.Attribute.Type, ignoreFields, ignoreNames, ignoreTags, seen)
 		if !ignoreTags {
-			for k, v := range a.Attribute.Meta {
-				if !strings.HasPrefix(k, "struct:field:") {
-					continue
-				}
-				*ph += fmt.Sprintf("%s%s%s", tagPrefix, k, v)
-			}
+			*ph += hashTags(a.Attribute.Meta)
 		}
 	}
 	return ph
+}
+
+// hashTags returns the hash of the "struct:field:" tags in key order so that
+// the result does not depend on the iteration order of the map.
+func hashTags(m MetaExpr) string {
+	var keys []string
+	for k := range m {
+		if strings.HasPrefix(k, "struct:field:") {
+			keys = append(keys, k)
+		}
+	}
+	sort.Strings(keys)
+	var h string
+	for _, k := range keys {
+		h += fmt.Sprintf("%s%s%s", tagPrefix, k, m[k])
+	}
+	return h
 }
 
 func sorted(o *Object) Object {
